@@ -219,14 +219,14 @@ def make_regular_polygon_aperture(num_sides, circum_diameter, angle=0, center=No
             x = x - shift[0]
             y = y - shift[1]
 
-            ind_x = np.flatnonzero(x**2 < ((circum_diameter / 2)**2))
+            ind_x = np.flatnonzero(x**2 <= ((circum_diameter / 2)**2))
             if not len(ind_x):
                 if return_with_mask:
                     return np.array([]), (slice(0, 0), slice(0, 0))
                 else:
                     return grid.zeros()
 
-            ind_y = np.flatnonzero(y**2 < ((circum_diameter / 2)**2))
+            ind_y = np.flatnonzero(y**2 <= ((circum_diameter / 2)**2))
             if not len(ind_y):
                 if return_with_mask:
                     return np.array([]), (slice(0, 0), slice(0, 0))
@@ -239,7 +239,7 @@ def make_regular_polygon_aperture(num_sides, circum_diameter, angle=0, center=No
             x = x[m_x]
             y = y[m_y]
 
-            f_sub = np.ones((len(ind_y), len(ind_x)))
+            f_sub = ((y**2 <= (circum_diameter / 2)**2)[:, np.newaxis] * (x**2 <= (circum_diameter / 2)**2)[np.newaxis, :]).astype('float')
 
             if num_sides % 2 == 0:
                 for theta in thetas:
